@@ -261,6 +261,27 @@ class Alloc:
         return o
 
 
+def needs_wide_csize(case):
+    """some compressed cluster's stream spans cluster_size / 512 + 1 sectors (the sector-count field needs its top bit)"""
+    cs = 1 << case["cluster_bits"]
+    for c in case["clusters"].values():
+        if c["t"] == "comp":
+            clen = len(deflate_raw(plain_cluster(c["seed"], cs, c.get("hard", False))))
+            if (c["coffset"] + clen - 1) // 512 - c["coffset"] // 512 + 1 > cs // 512:
+                return True
+    return False
+
+
+def gen_case_where(rng, tier, pred, bigbuf=False, tries=4000):
+    """a generated case that satisfies pred (the last one tried if none does)"""
+    c = None
+    for _ in range(tries):
+        c = gen_case(rng, tier, bigbuf)
+        if pred(c):
+            break
+    return c
+
+
 def gen_case(rng, tier, bigbuf=False):
     if bigbuf:
         cb = rng.weighted([(9, 6), (10, 2), (11, 1)])
@@ -545,7 +566,8 @@ class Qcow2Suite(Suite):
         else:
             n = 3000 if tier == "thorough" else 220
         from harness.readers import with_twins
-        return with_twins([gen_case(rng, tier, self.bigbuf) for _ in range(n)], rng)
+        directed = [gen_case_where(rng, tier, needs_wide_csize, self.bigbuf)]
+        return with_twins(directed + [gen_case(rng, tier, self.bigbuf) for _ in range(n)], rng)
 
     # -- implementation side (worker process)
     def impl(self, case):
